@@ -117,7 +117,7 @@ CLAIMED['C13'] = dict(
     design='5 C13')
 
 CLAIMED['C14'] = dict(
-    text=BMC + 'C14, by induction: (a) frame lemma - each of 68 instances of 23 read-only operation kinds (dumps with every keyword incl. the shared BEKERN_CATEGORIES set and calls that raise, token / unique / encoding / frequency / metacomment queries, spine_types, is_monophonic, iteration, measures_count, graph export to a file, clone) leaves a deep structural snapshot of the Document, of the module-level tables/defaults and of its argument containers unchanged and returns what a freshly imported copy returns; (a2) the same for dumps with UNBOUNDED symbolic integer from_measure/to_measure (39 paths cover all of Z x Z on 3 documents, including the ranges that raise); (b) all ordered pairs of operation instances as two-step histories; (c) two imports of the same text are indistinguishable by snapshot and by every operation (graph output modulo node ids).',
+    text=BMC + 'C14, by induction: (a) frame lemma - each of 90 instances of 30 read-only operation kinds (dumps with every keyword incl. the shared BEKERN_CATEGORIES set and calls that raise, token / unique / encoding / frequency / metacomment queries, spine_types, is_monophonic, iteration, measures_count, graph export to a file, clone) leaves a deep structural snapshot of the Document, of the module-level tables/defaults and of its argument containers unchanged and returns what a freshly imported copy returns; (a2) the same for dumps with UNBOUNDED symbolic integer from_measure/to_measure (39 paths cover all of Z x Z on 3 documents, including the ranges that raise); (b) all ordered pairs of operation instances as two-step histories; (c) two imports of the same text are indistinguishable by snapshot and by every operation (graph output modulo node ids).',
     note=NOTE + 'Histories longer than two calls follow from the frame lemma (state unchanged => every later call sees an imported state), they are not enumerated to length 12. to_transposed is C15.',
     technique='inductive frame lemma decided by CrossHair-engine symbolic execution (symbolic integer ranges) and z3-enumerated operation instances/pairs with deep structural snapshots',
     design='5 C14')
@@ -133,5 +133,30 @@ CLAIMED['C20'] = dict(
     note=NOTE + 'open()/csv on arbitrary bytes, locale-dependent default encodings, process spawning and permissions are out of reach of symbolic execution and outside the claim; the file tier is an enumeration of realised cases, labelled so.',
     technique='CrossHair-engine symbolic execution of get_kern_from_ekern on symbolic strings + z3-enumerated file / command-line scenarios realised at the I/O boundary and compared with the in-memory API',
     design='5 C20')
+
+# ---- additions of the second build session (appended to the claim texts; DESIGN.md section 9.7)
+_MORE = {
+    'C01': ' (f) the document fixed point on long scores (300 / 1200 data rows, thorough 4000).',
+    'C02': ' Every layout is imported under four blank-line plans (one stage per NON-EMPTY line).',
+    'C03': ' (g) grid and cell content of long scores against the cell model; (h) histories: a new interpreter whose first call is a filtered / ranged / agnostic export, a query or another document, then the default export.',
+    'C04': ' (f) the kern / ekern / bkern / bekern views after each of ten first calls of a new interpreter.',
+    'C05': ' Two documents hold the same text under different categories in one document; (b) also re-uses the caller\'s own list / set after changing it in place between two calls; (d) filtered exports after each of ten first calls of a new interpreter.',
+    'C06': ' Every layout carries local-comment rows; (d) spine selections after each of ten first calls of a new interpreter.',
+    'C07': ' Shapes with global comments inside the score; (b) checks that options do not leak from one call into the next (plain export after ranged / rejected ones, half-open ranges); (c) scores of 80 / 320 (thorough 1000) measures with unbounded symbolic from_measure / to_measure.',
+    'C11': ' (h) two-step histories from the first call of a new interpreter (a selection naming the category, a result set the caller empties) followed by eight query kinds on the category, its parent and its children. E2 now also translates set methods (isdisjoint, issubset, union ...), any()/all() over sets and module-level constants.',
+    'C12': ' The pools contain characters that only the lexer can reject (outside the kern alphabet; treated as malformed whatever the current parser says) and the same malformed text in several cells of one line.',
+    'C13': ' (d) combined options after each of ten first calls of a new interpreter.',
+    'C14': ' The operation list also holds loops over the document that are left early (peek, break, exception, interleaved iterators); a long score (260 / 1200 data rows) goes through the frame lemma and the two-imports obligation.',
+    'C15': ' (d) long scores (300 / 1200 data rows, thorough 4000): every note transposed, nothing else changed, round trip.',
+    'C16': ' (d) histories on one letter: two spellings of the same letter (any alterations, octaves -1, 0, 1, 4, 9; thorough -3..12) through fresh codec objects, then the first again.',
+    'C17': ' (e) listing order, encodings, unique listing, frequencies and comments of long scores; (b) also on a document with invisible barlines.',
+    'C18': ' (d) includes cells that a Unicode clean-up would change (not NFC, full-width, case-sensitive) and checks their export.',
+    'C19': ' Shapes whose pickup starts with a chord / rest / decorated note in every spine; whether a first fragment has a measure is decided by the text-level model.',
+    'C20': ' (b) also loads the same file again after the first result was modified, and after the file was replaced by other content of the same size and time stamp; the command-line scores contain durationless grace notes (extended form with a decoration separator but no token separator).',
+}
+for _k, _v in _MORE.items():
+    CLAIMED[_k]['text'] += _v
+for _k in CLAIMED:
+    CLAIMED[_k]['note'] += ' A counterexample that only fails after the calls made earlier in the same interpreter is replayed together with that history (recorded in the replay file).'
 
 PENDING_REASON = 'check under construction in this session (to be claimed; see DESIGN.md section 5)'
